@@ -1,4 +1,323 @@
-import PV.C15.Model
-import PV.C15.Spec
+/-
+C15 property theorems.  Core Lean only.
+
+Property: for any data distributed over any number of shards and any PQL bitmap expression the result
+equals evaluating the expression over the logical column sets (Row plain / time range / int condition,
+Union, Intersect, Difference, Xor, Not, Shift, Count, nested to any depth); Set, Clear, ClearRow and
+Store change the stored sets as documented; Not is relative to the columns written by Set or import
+when existence tracking is on.
+
+Full-strength statement (NOT provable for the current design, see the witness theorems below):
+
+    theorem C15_eval (st) (hw : WF st) (e) (cs) (shards) (hev : Spec.eval st e = .ok cs)
+        (hcover : ∀ c ∈ cs, c / ShardWidth ∈ shards) :
+        ∃ row, execute st e shards = .ok row ∧ ∀ c, c ∈ Row.columns row ↔ c ∈ cs
+
+It fails exactly where a Shift moves a column across a shard boundary: the executor evaluates every
+call shard by shard, so the bit carried out of shard s is not seen by the sibling operands evaluated in
+shard s+1 (`C15_shift_shard_edge_witness`).  What is proved is `C15_eval_partial` = the same statement
+under `Spec.noCarry st e` (no Shift inside `e` has an operand column c with c % ShardWidth + n >=
+ShardWidth); every other construct and any nesting depth is covered, and `C15_error` (errors) has no
+exclusion at all.  Known finding tag: shift-shard-edge.
+
+The model follows row.go / executor.go of branch verif/a12 (Row.Shift carries into the next segment,
+mergeSegmentIterator fixed, Store returns its source row's error).
+-/
+import PV.C15.LemmasWrites
+import PV.C15.LemmasShard
+import PV.C15.LemmasCount
 namespace PV.C15
+open List
+
+/-! ### evaluation -/
+
+/-- **C15_eval_partial.**  Any expression tree, any placement of the data over shards, any list of
+queried shards covering the result: the executor's row holds exactly the set-algebra value —
+provided no Shift inside the expression carries a column over a shard edge (`Spec.noCarry`). -/
+theorem C15_eval_partial (st : St) (hw : WF st) (e : Expr) (cs : List Nat) (shards : List Nat)
+    (hnc : Spec.noCarry st e = true) (hev : Spec.eval st e = .ok cs)
+    (hcover : ∀ c ∈ cs, c / ShardWidth ∈ shards) :
+    ∃ row, execute st e shards = .ok row ∧ ∀ c, c ∈ Row.columns row ↔ c ∈ cs := by
+  obtain ⟨row, hrow, hmem⟩ := execute_fold st hw e cs hnc hev shards []
+  refine ⟨row, hrow, ?_⟩
+  intro c
+  rw [mem_columns, hmem]
+  simp only [Row.cols, flatMap_nil, not_mem_nil, false_or]
+  exact ⟨fun h => h.1, fun h => ⟨h, hcover c h⟩⟩
+
+/-- The per-shard half of `C15_eval_partial`: the value computed in shard `s` is the shard-`s` part of
+the set-algebra value, and sits in the segment of shard `s` only. -/
+theorem C15_eval_shard_partial (st : St) (hw : WF st) (s : Nat) (e : Expr) (cs : List Nat)
+    (hnc : Spec.noCarry st e = true) (hev : Spec.eval st e = .ok cs) :
+    ∃ r, evalShard st e s = .ok r ∧ Local s r ∧ ∀ c, c ∈ Row.cols r ↔ c ∈ cs ∧ c / ShardWidth = s :=
+  evalShard_spec st hw s e cs hnc hev
+
+/-- **C15_count_partial.**  `Count(e)` — the sum of the per-shard counts — is the cardinality of the
+set-algebra value (same exclusion: no Shift carry; the queried shards are distinct and cover the value).
+Uses: every segment the executor builds is duplicate-free (`evalShard_nodup`, also under a carry) and
+the set-algebra value is duplicate-free (`spec_nodup`). -/
+theorem C15_count_partial (st : St) (hw : WF st) (e : Expr) (cs : List Nat) (shards : List Nat)
+    (hnc : Spec.noCarry st e = true) (hev : Spec.eval st e = .ok cs)
+    (hs : shards.Nodup) (hcover : ∀ c ∈ cs, c / ShardWidth ∈ shards) :
+    executeCount st e shards = .ok cs.length := by
+  rw [executeCount_eq, count_fold st hw e cs hnc hev shards 0, sum_filter_shards cs shards hs hcover]
+  simp
+
+/-- **C15_error.**  A query fails exactly when the expression is ill-formed for the schema (missing
+field, empty Intersect/Difference, wrong arity, negative shift, Not without existence tracking), with
+that error, in every shard — no exclusion. -/
+theorem C15_error (st : St) (e : Expr) (x : Err) (s : Nat) (shards : List Nat)
+    (hev : Spec.eval st e = .error x) :
+    evalShard st e s = .error x ∧ (shards ≠ [] → execute st e shards = .error x) := by
+  have h1 := (evalShard_ok_of_spec st s e).1 x hev
+  refine ⟨h1, ?_⟩
+  intro hne
+  cases shards with
+  | nil => exact absurd rfl hne
+  | cons s0 rest =>
+    have h0 := (evalShard_ok_of_spec st s0 e).1 x hev
+    simp only [execute, foldl_cons, h0, bind, Except.bind]
+    clear hne h0
+    induction rest with
+    | nil => rfl
+    | cons s1 rest ih => simpa [foldl_cons, bind, Except.bind] using ih
+
+/-- and succeeds in every shard when the expression is well-formed (also when a Shift carries). -/
+theorem C15_no_spurious_error (st : St) (e : Expr) (cs : List Nat) (s : Nat) (hev : Spec.eval st e = .ok cs) :
+    ∃ r, evalShard st e s = .ok r :=
+  (evalShard_ok_of_spec st s e).2 cs hev
+
+/-! ### Not -/
+
+/-- **C15_not.**  Not(a) is the set of existing columns minus a, where "existing" is row 0 of the
+existence field's standard view ... -/
+theorem C15_not (st : St) (hw : WF st) (a : Expr) (ca : List Nat) (shards : List Nat)
+    (hex : st.exist = true) (hnc : Spec.noCarry st a = true) (hev : Spec.eval st a = .ok ca)
+    (hcover : ∀ c ∈ Spec.existCols st, c / ShardWidth ∈ shards) :
+    ∃ row, execute st (.not a) shards = .ok row ∧
+      ∀ c, c ∈ Row.columns row ↔ c ∈ Spec.existCols st ∧ c ∉ ca := by
+  have hev' : Spec.eval st (.not a) = .ok (sDiff (Spec.existCols st) ca) := by
+    simp [Spec.eval, hex, hev, bind, Except.bind, pure, Except.pure]
+  obtain ⟨row, h1, h2⟩ := C15_eval_partial st hw (.not a) _ shards (by simpa [Spec.noCarry] using hnc) hev'
+    (fun c hc => hcover c ((mem_sDiff _ _ _).mp hc).1)
+  exact ⟨row, h1, fun c => by rw [h2 c, mem_sDiff]⟩
+
+/-- ... and that set is exactly the columns written by Set / import while tracking is on: a Set adds
+its column, nothing else does (`C15_writes_*` below: Clear, ClearRow and Store leave it alone). -/
+theorem C15_not_existence_set (st st' : St) (f : String) (r c : Nat) (views : List String) (ch : Bool)
+    (h : st.set f r c views = .ok (st', ch)) (hf : f ≠ existenceField) (x : Nat) :
+    x ∈ Spec.existCols st' ↔ x ∈ Spec.existCols st ∨ (st.exist = true ∧ x = c) := by
+  unfold St.set at h
+  cases hft : st.fieldType f with
+  | none => rw [hft] at h; cases h
+  | some t =>
+    rw [hft] at h
+    simp only [Except.ok.injEq, Prod.mk.injEq] at h
+    obtain ⟨h, _⟩ := h
+    subst h
+    simp only [Spec.existCols, mem_fieldCols, foldl_addBit_mem]
+    cases hex : st.exist with
+    | false =>
+      simp only [Bool.false_eq_true, if_false, false_and, or_false]
+      constructor
+      · rintro (h | ⟨v, _, h⟩)
+        · exact h
+        · simp only [Bit.mk.injEq] at h; exact absurd h.1.symm hf
+      · exact Or.inl
+    | true =>
+      simp only [if_true, addBit_mem, true_and]
+      constructor
+      · rintro ((h | h) | ⟨v, _, h⟩)
+        · exact Or.inl h
+        · simp only [Bit.mk.injEq] at h; exact Or.inr h.2.2.2
+        · simp only [Bit.mk.injEq] at h; exact absurd h.1.symm hf
+      · rintro (h | h)
+        · exact Or.inl (Or.inl h)
+        · subst h; exact Or.inl (Or.inr rfl)
+
+/-! ### writes -/
+
+/-- **C15_writes (Set).**  `Set(c, f=r[, timestamp])` adds column c to row r of f in the standard view
+and in the views of the timestamp, and (tracking on) to the existence row; nothing else changes; the
+state stays well-formed. -/
+theorem C15_writes_set (st st' : St) (hw : WF st) (f : String) (r c : Nat) (views : List String) (ch : Bool)
+    (h : st.set f r c views = .ok (st', ch)) :
+    WF st' ∧ st'.vals = st.vals ∧
+    ∀ b, b ∈ st'.bits ↔ b ∈ st.bits ∨ (∃ v ∈ viewStandard :: views, b = ⟨f, v, r, c⟩) ∨
+                        (st.exist = true ∧ b = ⟨existenceField, viewStandard, 0, c⟩) := by
+  unfold St.set at h
+  cases hft : st.fieldType f with
+  | none => rw [hft] at h; cases h
+  | some t =>
+    rw [hft] at h
+    simp only [Except.ok.injEq, Prod.mk.injEq] at h
+    obtain ⟨h, _⟩ := h
+    subst h
+    by_cases hex : st.exist = true
+    · simp only [hex, if_true]
+      have hw1 := addBit_wf st hw ⟨existenceField, viewStandard, 0, c⟩
+      refine ⟨foldl_addBit_wf _ hw1 f r c _, ?_, ?_⟩
+      · rw [foldl_addBit_vals, addBit_vals]
+      · intro b; rw [foldl_addBit_mem, addBit_mem]
+        constructor
+        · rintro ((h | h) | h)
+          · exact Or.inl h
+          · exact Or.inr (Or.inr ⟨trivial, h⟩)
+          · exact Or.inr (Or.inl h)
+        · rintro (h | h | ⟨_, h⟩)
+          · exact Or.inl (Or.inl h)
+          · exact Or.inr h
+          · exact Or.inl (Or.inr h)
+    · simp only [hex, if_false]
+      refine ⟨foldl_addBit_wf st hw f r c _, foldl_addBit_vals st f r c _, ?_⟩
+      intro b; rw [foldl_addBit_mem]; simp
+
+/-- **C15_writes (Clear).**  `Clear(c, f=r)` removes column c from row r of f in every view; nothing
+else changes. -/
+theorem C15_writes_clear (st st' : St) (hw : WF st) (f : String) (r c : Nat) (ch : Bool)
+    (h : st.clear f r c = .ok (st', ch)) :
+    WF st' ∧ st'.vals = st.vals ∧
+    ∀ b, b ∈ st'.bits ↔ b ∈ st.bits ∧ ¬ (b.field = f ∧ b.row = r ∧ b.col = c) := by
+  unfold St.clear at h
+  cases hft : st.fieldType f with
+  | none => rw [hft] at h; cases h
+  | some t =>
+    rw [hft] at h
+    simp only [Except.ok.injEq, Prod.mk.injEq] at h
+    obtain ⟨h, _⟩ := h
+    subst h
+    refine ⟨⟨?_, hw.valFrag⟩, rfl, ?_⟩
+    · intro b hb; exact hw.bitFrag b (mem_filter.mp hb).1
+    · intro b
+      simp only [mem_filter, Bool.not_eq_true', decide_eq_false_iff_not]
+
+/-- **C15_writes (ClearRow).**  `ClearRow(f=r)` removes row r of f from every view in every queried
+shard; nothing else changes. -/
+theorem C15_writes_clearRow (st st' : St) (hw : WF st) (f : String) (r : Nat) (shards : List Nat)
+    (h : st.clearRow f r shards = .ok st') :
+    WF st' ∧ st'.vals = st.vals ∧
+    ∀ b, b ∈ st'.bits ↔ b ∈ st.bits ∧ ¬ (b.field = f ∧ b.row = r ∧ b.col / ShardWidth ∈ shards) := by
+  unfold St.clearRow at h
+  cases hft : st.fieldType f with
+  | none => rw [hft] at h; cases h
+  | some t =>
+    rw [hft] at h
+    simp only at h
+    split at h
+    · cases h
+    · simp only [Except.ok.injEq] at h
+      subst h
+      refine ⟨⟨?_, hw.valFrag⟩, rfl, ?_⟩
+      · intro b hb; exact hw.bitFrag b (mem_filter.mp hb).1
+      · intro b
+        simp only [mem_filter, Bool.not_eq_true', decide_eq_false_iff_not, contains_eq_mem, decide_eq_true_eq]
+
+/-- **C15_writes (Store), partial: no Shift carry in the source expression.**  `Store(e, f=r)` makes
+row r of f (standard view) in the queried shards equal to the value of e; other rows, fields, views,
+int values and the existence row are unchanged. -/
+theorem C15_writes_store_partial (st : St) (hw : WF st) (f : String) (r : Nat) (e : Expr) (cs shards : List Nat)
+    (hft : st.fieldType f = some .set) (hnc : Spec.noCarry st e = true) (hev : Spec.eval st e = .ok cs) :
+    ∃ st', st.store f r e shards = .ok st' ∧ WF st' ∧ st'.vals = st.vals ∧ st'.exist = st.exist ∧
+      ∀ b, b ∈ st'.bits ↔
+        (if b.field = f ∧ b.view = viewStandard ∧ b.row = r ∧ b.col / ShardWidth ∈ shards then b.col ∈ cs
+         else b ∈ st.bits) := by
+  rw [store_eq st f r e shards .set hft rfl]
+  obtain ⟨st', h1, h2, h3, h4, h5⟩ := store_fold st hw f r e cs hnc hev shards [] st hw rfl rfl
+    (by intro b; simp)
+  refine ⟨st', h1, h2, h3, h4, ?_⟩
+  intro b
+  rw [h5 b]
+  simp only [Target, not_mem_nil, false_or, and_assoc]
+
+/-- Store does not touch existence: a stored column that was never Set is not in Not's universe. -/
+theorem C15_store_keeps_existence (st : St) (hw : WF st) (f : String) (r : Nat) (e : Expr) (cs shards : List Nat)
+    (hft : st.fieldType f = some .set) (hnc : Spec.noCarry st e = true) (hev : Spec.eval st e = .ok cs)
+    (hf : f ≠ existenceField) (st' : St) (h : st.store f r e shards = .ok st') (x : Nat) :
+    x ∈ Spec.existCols st' ↔ x ∈ Spec.existCols st := by
+  obtain ⟨st'', h1, _, _, _, h5⟩ := C15_writes_store_partial st hw f r e cs shards hft hnc hev
+  rw [h] at h1
+  simp only [Except.ok.injEq] at h1
+  subst h1
+  simp only [Spec.existCols, mem_fieldCols]
+  rw [h5]
+  have : ¬ (existenceField = f ∧ viewStandard = viewStandard ∧ 0 = r ∧ x / ShardWidth ∈ shards) :=
+    fun h => hf h.1.symm
+  have hne : ¬ (existenceField = f) := fun h => hf h.symm
+  simp only [hne, false_and, if_false]
+
+/-! ### shard locality of the Row algebra (any rows with ascending segments) -/
+
+/-- **C15_shard_local_intersect.** -/
+theorem C15_shard_local_intersect (a b : Row) (ha : Asc a) (hb : Asc b) (s c : Nat) :
+    c ∈ colsAt (a.inter b) s ↔ c ∈ colsAt a s ∧ c ∈ colsAt b s := inter_colsAt a b ha hb s c
+
+/-- **C15_shard_local_difference.** -/
+theorem C15_shard_local_difference (a b : Row) (ha : Asc a) (hb : Asc b) (s c : Nat) :
+    c ∈ colsAt (a.diff b) s ↔ c ∈ colsAt a s ∧ c ∉ colsAt b s := diff_colsAt a b ha hb s c
+
+/-- **C15_shard_local_xor.** -/
+theorem C15_shard_local_xor (a b : Row) (ha : Asc a) (hb : Asc b) (s c : Nat) :
+    c ∈ colsAt (a.xor b) s ↔ (c ∈ colsAt a s ∧ c ∉ colsAt b s) ∨ (c ∈ colsAt b s ∧ c ∉ colsAt a s) :=
+  xor_colsAt a b ha hb s c
+
+/-- **C15_shard_local_merge** (the reduce; also the value of Union on every shard). -/
+theorem C15_shard_local_merge (a b : Row) (ha : Asc a) (hb : Asc b) (s c : Nat) :
+    c ∈ colsAt (a.merge b) s ↔ c ∈ colsAt a s ∨ c ∈ colsAt b s := merge_colsAt a b ha hb s c
+
+/-- **C15_shard_local_union** for the rows a shard evaluation works with (`Local`); the k-way walk of
+Row.Union on arbitrary rows is covered by the correspondence runs (`rowop union`). -/
+theorem C15_shard_local_union_partial (s : Nat) (a b : Row) (ha : Local s a) (hb : Local s b) (c : Nat) :
+    Local s (a.union b) ∧ (c ∈ Row.cols (a.union b) ↔ c ∈ Row.cols a ∨ c ∈ Row.cols b) :=
+  ⟨(union_local s a b ha hb).1, (union_local s a b ha hb).2 c⟩
+
+/-- **C15_shard_local_shift, partial: no carry.**  Shifting the shard-s segment by n stays in shard s
+and is the pointwise shift when no column reaches the end of the shard. -/
+theorem C15_shard_local_shift_partial (s n : Nat) (cs : List Nat)
+    (h : ∀ c ∈ cs, c / ShardWidth = s ∧ c % ShardWidth + n < ShardWidth) :
+    Row.shift n [⟨s, cs⟩] = [⟨s, cs.map (· + n)⟩] := shift_local s n cs h
+
+/-! ### the excluded region is real: witnesses -/
+
+def okOf {α : Type} : Except Err α → Option α
+  | .ok a => some a
+  | .error _ => none
+
+/-- a = {1, ShardWidth-1}, b = {ShardWidth}, c empty -/
+def witnessSt : St :=
+  { exist := true
+    fields := [("a", .set), ("b", .set), ("c", .set)]
+    bits := [⟨"a", "standard", 1, 1⟩, ⟨"a", "standard", 1, 1048575⟩, ⟨"b", "standard", 1, 1048576⟩,
+             ⟨"_exists", "standard", 0, 1⟩, ⟨"_exists", "standard", 0, 1048575⟩, ⟨"_exists", "standard", 0, 1048576⟩]
+    frags := [("a", "standard", 0), ("b", "standard", 1), ("_exists", "standard", 0), ("_exists", "standard", 1)] }
+
+/-- **Witness (tag shift-shard-edge).**  Intersect(Shift(Row(a=1), n=1), Row(b=1)): the set-algebra
+value is {ShardWidth}; the per-shard executor returns nothing. -/
+theorem C15_shift_shard_edge_witness :
+    okOf ((execute witnessSt (.bin .inter (.shift 1 (.row "a" 1)) (.row "b" 1)) [0, 1]).map Row.columns) = some [] ∧
+    okOf (Spec.eval witnessSt (.bin .inter (.shift 1 (.row "a" 1)) (.row "b" 1))) = some [1048576] := by
+  decide
+
+/-- the same carry makes Count(Union(Shift(Row(a=1), n=1), Row(b=1))) 3 instead of 2 -/
+theorem C15_shift_shard_edge_count_witness :
+    okOf (executeCount witnessSt (.bin .union (.shift 1 (.row "a" 1)) (.row "b" 1)) [0, 1]) = some 3 ∧
+    (okOf (Spec.eval witnessSt (.bin .union (.shift 1 (.row "a" 1)) (.row "b" 1)))).map List.length = some 2 := by
+  decide
+
+/-- and Store(Shift(Row(a=1), n=1), c=5) loses the carried column -/
+theorem C15_shift_shard_edge_store_witness :
+    (okOf (witnessSt.store "c" 5 (.shift 1 (.row "a" 1)) [0, 1])).map (fun st => Spec.fieldCols st "c" "standard" 5) = some [2] ∧
+    okOf (Spec.eval witnessSt (.shift 1 (.row "a" 1))) = some [2, 1048576] := by
+  decide
+
+/-! ### non-vacuity -/
+
+example : WF witnessSt := by
+  constructor
+  · intro b hb; revert b; decide
+  · intro e he; cases he
+
+example : Spec.noCarry witnessSt (.bin .union (.shift 1 (.row "b" 1)) (.not (.row "a" 1))) = true := by decide
+example : Spec.noCarry witnessSt (.shift 1 (.row "a" 1)) = false := by decide
+example : Asc [⟨0, [1, 5]⟩, ⟨3, [3145730]⟩] := by unfold Asc; decide
+
 end PV.C15
